@@ -23,6 +23,16 @@ CLAIMS = {
              "cover it); floating-point time is replaced by exact microseconds.",
         technique="Lean 4 invariant proofs over a hand-written model + lock-step correspondence with the real ECU under a virtual clock",
         design="§8 C12"),
+    'C16': dict(
+        text="Proof (Lean 4): DTC pack/unpack is the identity on all 2^19 x 32 x 128 codes with conversion mode 0, the four bytes are the "
+             "J1939-73 layout, all 5^4 lamp combinations survive (decide over the reflected tables), DM1 build->parse returns lamp states and "
+             "the code list for EVERY non-empty list of in-range codes (induction over the list), built length never 6-byte-special 8, DM22 "
+             "request bytes at the J1939-73 positions, stop_send leaves no timer of the sender callback and it is not called again.",
+        note="Per-code arithmetic, lamp extraction and DM22 builder are regenerated from diagnostic_messages.py; list handling / length checks "
+             "are Model/Dm1.lean tied by correspondence with Dm1._send/_receive; delivery through the transports is exercised end to end on two "
+             "real stacks by the oracle (theorems for the transports: C01/C02/C11). Proved for the code as repaired by fix: commits D11, D12.",
+        technique="Lean 4 theorems over source-regenerated codecs + list induction + decide over reflected lamp tables; correspondence; e2e oracle",
+        design="§8 C16"),
 }
 
 NOT_YET = {}
